@@ -12,9 +12,9 @@ import (
 
 func init() {
 	register("C10", &propSpec{
-		level: "other",
+		level:       "other",
 		explanation: "The request server's adapter tables and provenance, decided from the code: request type → Method string (requestMethod, the synthesized requests, open/opendir) → wrapper (Request.call) → handler interface methods, compared with the documented API; every path stored in a Request is the result of cleanPathWithBase/cleanPath (documented exceptions: the symlink target text, a custom RealPath argument) and cleanPathWithBase itself is Clean+ToSlash then Join under !IsAbs, with the start directory itself cleaned; open flags and attribute flags/bytes are copied field to field; each wrapper invokes a handler method at most once per path; error translation preserves categories for the standard error shapes and keeps SFTP status codes.",
-		run: runC10,
+		run:         runC10,
 		assumptions: []string{"path.Clean/path.Join/filepath.Clean semantics (a cleaned absolute path joined under a root cannot escape it)", "handlers are trusted code"},
 	})
 }
